@@ -1,4 +1,5 @@
 """C18 - derive(Trace) traces every non-ignored field once and forbids custom Drop."""
+import re
 from engine.graph import Super, Program, fmt, strip, U_KINDS
 from engine import tables, witness, derivegrid, build
 from engine.facts import Facts, norm_path
@@ -259,7 +260,9 @@ def recognisers(R, F, P):
     for p in tables.normal_paths(S, limit=2000):
         ours = None
         for a, t in p.literals:
-            if a[0] == "bool" and "is_ident(" in fmt(a[1]) and '"rust_cc"' in fmt(a[1]):
+            # the name test on the attribute's own path: against the literal "rust_cc" or a named constant (the *value* of the name is
+            # decided by the derive grid, whose `#[rust_cc(ignore)]` probes are honoured only if it is right; this rule is about totality)
+            if a[0] == "bool" and re.search(r'is_ident\(path\(attr\)[^,]*, ("rust_cc"|[A-Z][A-Z0-9_]*)\)', fmt(a[1])):
                 ours = t
         rv = fmt(strip(p.retval()))
         emitted = bool(p.calls(EMIT))
